@@ -253,6 +253,14 @@ func init() {
 		}
 		return Bool{C: false}
 	}
+	// vxPoolClear(): forget what the pools hold (engine only; used after computing a reference value so that it does not add pool choices)
+	vxAPI["vxPoolClear"] = func(e *Exec, fn *ssa.Function, a []Value) Value {
+		e.pools = map[lockKey][]Value{}
+		return nil
+	}
+	vxAPI["vxPoolDoublePuts"] = func(e *Exec, fn *ssa.Function, a []Value) Value {
+		return mkInt(64, uint64(e.poolDoublePut))
+	}
 	vxAPI["vxLockHeld"] = func(e *Exec, fn *ssa.Function, a []Value) Value {
 		return Bool{C: e.locks[e.lockKeyOf(a[0].(Iface).V)] != 0}
 	}
